@@ -14,7 +14,7 @@ ENGINES = [
          kind_free_text="Kani proof harnesses (kani::any inputs, #[kani::unwind]) over the real leaf kernels of ciphercore-base (bytes.rs, slices.rs, broadcast.rs, random.rs, evaluator free functions), "
                         "built from /repo's working tree with the verif-hooks feature; failing harnesses are replayed natively with Kani's concrete playback before a VIOLATION is printed"),
     dict(name="graph-smt", path="driver/ + symg/",
-         serves_properties=["C01", "C02", "C04", "C05", "C06", "C07", "C08", "C16", "C17"],
+         serves_properties=["C01", "C02", "C04", "C05", "C06", "C07", "C08", "C16", "C17", "C18"],
          kind_free_text="Rust driver linked against /repo's current tree runs the real instantiate/inline/compile/optimize functions and dumps the term DAGs they build; "
                         "a Python interpreter turns each DAG 1:1 into z3 bit-vector terms (inputs, randomness, junk symbolic) and z3/cvc5 decide the property; models are replayed on the real evaluator"),
 ]
@@ -99,8 +99,14 @@ chk("C17", "graph-smt", "other",
     "All operands are symbolic; unsat = exact for every operand at that width. Wider long division is outside the bound (solver does not finish).",
     G_NOTE, "SMT (z3 QF_BV) equivalence of the real generated circuit vs bit-vector spec, all operands symbolic", "DESIGN.md §5 C17")
 
+chk("C18", "graph-smt", "other",
+    "Solver-decided for all inputs: (1) the instantiated SortByIntegerKey graph for all 11 key types vs a closed-form numeric stable sort (sign handling, row permutation applied to every column); (2) ApplyPermutation followed by its inverse (both orders) is the identity for all valid permutations; "
+    "(3) compiled ApplyPermutation (private data, public permutation) equals the source for all data, permutations and tapes. SAMPLED, not solver-decided: (4) the compiled secure radix sort vs the plaintext stable sort on concrete tables with duplicate keys, odd/even key widths, multi-dimensional payloads "
+    "(the solver does not finish on the shuffle protocols even for 2 rows x 1 key bit). The plaintext Sort semantics is the interpreter's closed-form stable sort, validated against the real evaluator on every program.",
+    G_NOTE, "SMT (z3 QF_BV) equivalence vs closed-form stable-sort / permutation spec; concrete differential for the compiled secure sort", "DESIGN.md §5 C18")
+
 _pending = "check not built yet in this session; see DESIGN.md for the plan"
-for p in ["C03","C18"]:
+for p in ["C03"]:
     NOT_APPLICABLE[p] = _pending
 NOT_APPLICABLE["C11"] = "API histories over Arc/AtomicRefCell/HashMap state with format!-built errors: not encodable (Kani: 580 s/15 GB on a 3-call concrete history); a hand model would not be the real code"
 NOT_APPLICABLE["C12"] = "serde_json/typetag parsing of several-hundred-byte strings followed by the graph-building API: out of reach of bit-precise symbolic execution; round-trip equality has no input to quantify besides the program"
